@@ -22,8 +22,52 @@ def gen_script(rng, maxf, maxops):
     return "|".join(fibers)
 
 
+def gen_block_script(rng):
+    """fibers that block and wake each other (2-party barriers: MPSC waiter queue; semaphore
+    producer/consumer: MPMC waiter queue) next to pure yielders and a yield-polling fiber.
+    Deadlock-free by construction: the two users of a barrier arrive equally often and do
+    nothing else that blocks; every semaphore wait has its post in a fiber that never blocks."""
+    fibers = []
+    prim = 0
+    for _ in range(rng.randrange(1, 3)):
+        k = prim % 4
+        prim += 1
+        n = rng.randrange(2, 7) if rng.random() < 0.8 else rng.randrange(20, 40)
+        if rng.random() < 0.6:
+            for _side in range(2):
+                ops = []
+                for _ in range(n):
+                    ops.append("b%d" % k)
+                    if rng.random() < 0.25:
+                        ops.append("y")
+                fibers.append(ops)
+        else:
+            prod, cons = [], []
+            for _ in range(n):
+                prod.append("r%d" % k)
+                if rng.random() < 0.4:
+                    prod.append("y")
+                cons.append("a%d" % k)
+                if rng.random() < 0.2:
+                    cons.append("y")
+            fibers += [prod, cons]
+    for _ in range(rng.randrange(1, 4)):
+        fibers.append(["y"] * rng.randrange(2, 9))
+    rng.shuffle(fibers)
+    # one yielder-poller waiting for the last fiber to finish
+    fibers[-1] = fibers[-1] + ["f"]
+    if rng.random() < 0.5:
+        fibers.insert(0, ["y", "w%d" % len(fibers), "y"])
+    return "|".join(",".join(f) for f in fibers)
+
+
 def gen(rng, tier):
     cases = []
+    for _ in range(n_cases(tier, 100, 1000)):
+        cases.append({"args": [1, gen_block_script(rng)],
+                      "env": {"VR_SCHED": "rr", "VR_SEED": rng.randrange(1, 1 << 30), "VR_BUDGET": 300000}})
+    for _ in range(n_cases(tier, 40, 400)):
+        cases.append({"args": [rng.choice([2, 3]), gen_block_script(rng)], "env": sched_env(rng, budget=400000)})
     for _ in range(n_cases(tier, 150, 1500)):
         # one kernel thread: deterministic, exact run-order validation against the model
         cases.append({"args": [1, gen_script(rng, 6, 7 if tier == "quick" else 12)],
@@ -43,9 +87,10 @@ SPEC = {
     "C10": {
         "parts": [{"name": "yield", "harness": "yield", "model": "Sched", "runtime": True, "gen": gen,
                    "nontrivial": lambda s: s["hist"].get("switch #", 0) >= 6}],
-        "rule": "cases = (script of 2-6 fibers mixing yield and yield-polling waits, 1-3 kernel threads, scheduler seed) from VERIF_SEED; distinct = different (script, sha1 of the access/switch sequence); non-trivial = at least 6 context switches",
+        "rule": "cases = (script of 2-6 fibers mixing yield and yield-polling waits, or pairs of fibers that block and wake each other through 2-party barriers / semaphores next to yielders, 1-3 kernel threads, scheduler seed) from VERIF_SEED; distinct = different (script, sha1 of the access/switch sequence); non-trivial = at least 6 context switches",
         "trusted_base": [
             "run queues as lists (deque internals are C02's model Wsd); SAVING-skip does not occur in yield-only programs",
+            "on one kernel thread the harness announces who parks and who is woken (`block` / `sched <fiber>` notes from its own ghost count of barrier arrivals and semaphore units); a wrong announcement makes the run-order prediction diverge, it cannot hide a starvation",
             "exact run-order validation on 1 kernel thread; with N>1 threads only the starvation oracle (wait loops must terminate) is applied"],
         "assumptions": ["scripts are deadlock-free by construction (a fiber only waits for a later-indexed fiber that does set its flag)"],
     },
